@@ -12,7 +12,7 @@ Definition fp (S : sys) (pr : proc) : fprint :=
   | Reload t _ => FRead t
   | LoadUnder m _ => FRead m
   | Lock m _ | Unlock m _ _ => FLock (o_key S m)
-  | Fetch _ _ => FFetch
+  | Fetch _ (_ :: _) _ => FFetch
   | Store _ (t :: _) _ => FWrite t
   | _ => FNone
   end.
@@ -40,7 +40,7 @@ Definition agree (a : fprint) (c c2 : list (coord * Z)) (l l2 : list (coord * na
 Definition eff_c (S : sys) (pr : proc) : list (coord * Z) :=
   match p_pc pr with Store _ (t :: _) _ => [(t, o_up S t)] | _ => [] end.
 Definition eff_f (pr : proc) : list coord :=
-  match p_pc pr with Fetch m _ => [m] | _ => [] end.
+  match p_pc pr with Fetch _ (q :: _) _ => [q] | _ => [] end.
 Definition eff_l (S : sys) (p : nat) (pr : proc) (l : list (coord * nat)) : list (coord * nat) :=
   match p_pc pr with
   | Lock m _ => match lookup l (o_key S m) with Some _ => l | None => (o_key S m, p) :: l end
@@ -55,7 +55,7 @@ Lemma lstep_eff S p c l f pr :
   lstep S p c l f pr = (eff_c S pr ++ c, eff_l S p pr l, eff_f pr ++ f, fst (lnext S p c l pr), snd (lnext S p c l pr)).
 Proof.
   unfold lnext, lstep, eff_c, eff_l, eff_f.
-  destruct (p_pc pr) as [todo|todo|t rtodo|m rest|m todo rest|m rest|m todo rest|m rest|m a rest|m todo rest|];
+  destruct (p_pc pr) as [todo|todo|t rtodo|m rest|m todo rest|m todo rest|m todo rest|m rest|m a rest|m todo rest|];
     try destruct todo as [|t' todo]; try reflexivity.
   - destruct (file S c t'); reflexivity.
   - destruct (cached c t'); reflexivity.
@@ -74,7 +74,7 @@ Lemma lnext_agree S p c c2 l l2 pr :
   agree (fp S pr) c c2 l l2 -> lnext S p c l pr = lnext S p c2 l2 pr.
 Proof.
   unfold lnext, lstep, fp, agree.
-  destruct (p_pc pr) as [todo|todo|t rtodo|m rest|m todo rest|m rest|m todo rest|m rest|m a rest|m todo rest|];
+  destruct (p_pc pr) as [todo|todo|t rtodo|m rest|m todo rest|m todo rest|m todo rest|m rest|m a rest|m todo rest|];
     try destruct todo as [|t' todo]; intros H; try reflexivity.
   - rewrite (file_agree S _ _ _ H). destruct (file S c2 t'); reflexivity.
   - rewrite (cached_agree _ _ _ H). destruct (cached c2 t'); reflexivity.
@@ -88,7 +88,7 @@ Qed.
 Lemma eff_l_agree S p pr l l2 : agree (fp S pr) [] [] l l2 -> forall k, lookup l k = lookup l2 k -> lookup (eff_l S p pr l) k = lookup (eff_l S p pr l2) k.
 Proof.
   unfold eff_l, fp, agree.
-  destruct (p_pc pr) as [todo|todo|t rtodo|m rest|m todo rest|m rest|m todo rest|m rest|m a rest|m todo rest|];
+  destruct (p_pc pr) as [todo|todo|t rtodo|m rest|m todo rest|m todo rest|m todo rest|m rest|m a rest|m todo rest|];
     try destruct todo as [|t' todo]; intros H k Hk; try exact Hk.
   - rewrite H. destruct (lookup l2 (o_key S m)); [exact Hk|].
     destruct (coord_eq_dec (o_key S m) k) as [<-|Hn]; [rewrite !lookup_cons_eq; reflexivity | rewrite !lookup_cons_neq by exact Hn; exact Hk].
@@ -100,7 +100,7 @@ Lemma eff_preserve S p pr c l a :
   indep (fp S pr) a -> agree a c (eff_c S pr ++ c) l (eff_l S p pr l).
 Proof.
   unfold fp, eff_c, eff_l, agree, indep.
-  destruct (p_pc pr) as [todo|todo|t rtodo|m rest|m todo rest|m rest|m todo rest|m rest|m a' rest|m todo rest|];
+  destruct (p_pc pr) as [todo|todo|t rtodo|m rest|m todo rest|m todo rest|m todo rest|m rest|m a' rest|m todo rest|];
     try destruct todo as [|t' todo]; destruct a as [|u|u|k|]; cbn [app]; intros H; try reflexivity.
   - destruct (lookup l (o_key S m)); [reflexivity|]. rewrite lookup_cons_neq by exact H. reflexivity.
   - rewrite lookup_cons_neq by exact H. reflexivity.
@@ -125,7 +125,7 @@ Definition lk_after (S : sys) (p : nat) (pr : proc) (g : coord -> option nat) (k
 Lemma eff_l_lookup S p pr l k : lookup (eff_l S p pr l) k = lk_after S p pr (lookup l) k.
 Proof.
   unfold eff_l, lk_after, lkop.
-  destruct (p_pc pr) as [todo|todo|t rtodo|m rest|m todo rest|m rest|m todo rest|m rest|m a' rest|m todo rest|]; try reflexivity.
+  destruct (p_pc pr) as [todo|todo|t rtodo|m rest|m todo rest|m todo rest|m todo rest|m rest|m a' rest|m todo rest|]; try reflexivity.
   - destruct (coord_eqb_spec (o_key S m) k) as [<-|Hn].
     + destruct (lookup l (o_key S m)) eqn:E; [exact E | apply lookup_cons_eq].
     + destruct (lookup l (o_key S m)); [reflexivity | apply lookup_cons_neq; exact Hn].
@@ -134,7 +134,7 @@ Qed.
 
 Lemma lkop_fp S pr b k : lkop S pr = Some (b, k) -> fp S pr = FLock k.
 Proof.
-  unfold lkop, fp. destruct (p_pc pr) as [todo|todo|t rtodo|m rest|m todo rest|m rest|m todo rest|m rest|m a' rest|m todo rest|];
+  unfold lkop, fp. destruct (p_pc pr) as [todo|todo|t rtodo|m rest|m todo rest|m todo rest|m todo rest|m rest|m a' rest|m todo rest|];
     try discriminate; intros H; injection H as _ <-; reflexivity.
 Qed.
 
@@ -162,7 +162,7 @@ Qed.
 
 Lemma eff_c_val S pr t v : lookup (eff_c S pr) t = Some v -> v = o_up S t.
 Proof.
-  unfold eff_c. destruct (p_pc pr) as [todo|todo|t0 rtodo|m rest|m todo rest|m rest|m todo rest|m rest|m a' rest|m todo rest|];
+  unfold eff_c. destruct (p_pc pr) as [todo|todo|t0 rtodo|m rest|m todo rest|m todo rest|m todo rest|m rest|m a' rest|m todo rest|];
     try discriminate. destruct todo as [|t' todo]; [discriminate|]. cbn [lookup].
   destruct (coord_eqb_spec t' t) as [->|]; [|discriminate]. intros H. injection H as <-. reflexivity.
 Qed.
@@ -219,7 +219,7 @@ Qed.
 (* the unit (tile / meta tile) a requester is creating or waiting for *)
 Definition working (c : pc) : option coord :=
   match c with
-  | Lock m _ | Recheck m _ _ | Fetch m _ | Store m _ _ | LoadUnder m _ | Unlock m _ _ | LoadAfter m _ _ => Some m
+  | Lock m _ | Recheck m _ _ | Fetch m _ _ | Store m _ _ | LoadUnder m _ | Unlock m _ _ | LoadAfter m _ _ => Some m
   | _ => None
   end.
 
@@ -242,7 +242,7 @@ Proof.
   destruct (Nat.eq_dec q p) as [->|Hn]; [|rewrite nth_set_nth_neq in Hq by congruence; exact (HW _ _ Hq)].
   rewrite (nth_set_nth_eq _ _ _ _ Hp) in Hq. injection Hq as <-.
   pose proof (HW _ _ Hp) as Hw. unfold lnext, lstep.
-  destruct (p_pc pr) as [todo|todo|t rtodo|m rest|m todo rest|m rest|m todo rest|m rest|m a rest|m todo rest|] eqn:Hpc;
+  destruct (p_pc pr) as [todo|todo|t rtodo|m rest|m todo rest|m todo rest|m todo rest|m rest|m a rest|m todo rest|] eqn:Hpc;
     try destruct todo as [|t' todo]; cbn [wpc] in Hw; cbn [fst p_pc with_pc with_src wpc]; try exact I; try apply wpc_next_unit.
   - destruct (file S (cache s) t'); exact I.
   - destruct (cached (cache s) t'); cbn [fst p_pc with_pc]; [|exact I]. destruct (has_src (p_src pr) t'); [exact I|]. destruct (o_reload S); exact I.
@@ -271,16 +271,16 @@ Definition fp_in (g : gconf) (a : fprint) (m : coord) : Prop :=
   | _ => True
   end.
 
-Lemma fp_in_unit g rc rl up ex old pr m :
-  let S := grid_sys_x g rc rl up ex old in
+Lemma fp_in_unit g rc rl up ex old bulk pr m :
+  let S := grid_sys_b g rc rl up ex old bulk in
   wpc S (p_pc pr) -> working (p_pc pr) = Some m -> fp_in g (fp S pr) m.
 Proof.
   intros S Hw Hm. unfold fp. 
-  destruct (p_pc pr) as [todo|todo|t rtodo|m' rest|m' todo rest|m' rest|m' todo rest|m' rest|m' a rest|m' todo rest|];
+  destruct (p_pc pr) as [todo|todo|t rtodo|m' rest|m' todo rest|m' todo rest|m' todo rest|m' rest|m' a rest|m' todo rest|];
     try discriminate Hm; injection Hm as ->; try destruct todo as [|t' todo]; cbn [fp_in wpc] in *; try exact I; try reflexivity.
   - apply Hw. left. reflexivity.
   - apply Hw. left. reflexivity.
-  - cbn [S grid_sys_x o_single] in Hw. unfold g_members. destruct (g_meta g); [discriminate | left; reflexivity].
+  - cbn [S grid_sys_b o_single] in Hw. unfold g_members. destruct (g_meta g); [discriminate | left; reflexivity].
   - apply Hw. left. reflexivity.
 Qed.
 
@@ -303,7 +303,7 @@ Proof.
   assert (Hu : units_ok S (p_unc pr) [m] -> exists r, valid r /\ m = o_main S r).
   { intros H. destruct (H m (or_introl eq_refl)) as [r [Hr ->]]. exists r. split; [apply Hval; apply (Hunc r Hr) | reflexivity]. }
   apply Hu. intros x [<-|[]].
-  destruct (p_pc pr) as [todo|todo|t rtodo|m' rest|m' todo rest|m' rest|m' todo rest|m' rest|m' a rest|m' todo rest|];
+  destruct (p_pc pr) as [todo|todo|t rtodo|m' rest|m' todo rest|m' todo rest|m' todo rest|m' rest|m' a rest|m' todo rest|];
     try discriminate Hm; injection Hm as ->; cbn [PIpc] in Hpc.
   - apply (proj1 Hpc). left. reflexivity.
   - apply (proj1 Hpc). left. reflexivity.
@@ -317,9 +317,9 @@ Qed.
 (* Requests for different meta tiles are independent: at every reachable state, the next steps of two requesters that
    are creating / waiting for different meta tiles commute - either order gives both the same observations and local
    states and the same cache, lock table and upstream log. *)
-Theorem grid_units_commute g reload up expire old c0 reqs sched p q prp prq mp mq :
+Theorem grid_units_commute g reload up expire old bulk c0 reqs sched p q prp prq mp mq :
   valid_gconf g -> valid_reqs g reqs -> content_ok up c0 -> old_ok expire old ->
-  let S := grid_sys_x g true reload up expire old in
+  let S := grid_sys_b g true reload up expire old bulk in
   let s := run S (init c0 reqs) sched in
   p <> q -> nth_error (procs s) p = Some prp -> nth_error (procs s) q = Some prq ->
   working (p_pc prp) = Some mp -> working (p_pc prq) = Some mq -> mp <> mq ->
@@ -328,15 +328,15 @@ Theorem grid_units_commute g reload up expire old c0 reqs sched p q prp prq mp m
   sequiv (fst (step S (fst (step S s p)) q)) (fst (step S (fst (step S s q)) p)).
 Proof.
   intros Hg Hr Hc Ho S s Hpq Hp Hq Hwp Hwq Hne.
-  destruct (grid_reach g reload up expire old c0 reqs sched Hg Hr Hc Ho) as [_ [_ HG]]. fold S in HG. fold s in HG.
+  destruct (grid_reach g reload up expire old bulk c0 reqs sched Hg Hr Hc Ho) as [_ [_ HG]]. fold S in HG. fold s in HG.
   assert (HW : WInv S s) by (apply (run_inv S (WInv S)); [intros; apply winv_step; assumption | apply winv_init]).
   destruct (working_unit _ _ _ _ _ _ _ _ HG Hp Hwp) as [rp [Hvp Hmp]].
   destruct (working_unit _ _ _ _ _ _ _ _ HG Hq Hwq) as [rq [Hvq Hmq]].
   cbn [S grid_sys_x o_main] in Hmp, Hmq. subst mp mq.
   apply (step_commute S s p q prp prq Hpq Hp Hq).
   apply (units_independent g _ _ rp rq Hg Hvp Hvq Hne).
-  - exact (fp_in_unit g true reload up expire old prp _ (HW _ _ Hp) Hwp).
-  - exact (fp_in_unit g true reload up expire old prq _ (HW _ _ Hq) Hwq).
+  - exact (fp_in_unit g true reload up expire old bulk prp _ (HW _ _ Hp) Hwp).
+  - exact (fp_in_unit g true reload up expire old bulk prq _ (HW _ _ Hq) Hwq).
 Qed.
 
 (* non-vacuity: in the run nv_run requester 0 works on meta tile (2,2,2) and requester 2 on (0,0,2) after 8 rounds *)
